@@ -31,11 +31,15 @@ func swapDir(name string) string {
 type exprPrinter struct {
 	rename func(string) string
 	region map[*ssa.BasicBlock]int
+	res    func(ssa.Value) ssa.Value // resolves values along a path (phis by the edge taken, helper parameters)
 }
 
 func (ep *exprPrinter) str(v ssa.Value, d int) string {
 	if v == nil {
 		return "nil"
+	}
+	if ep.res != nil {
+		v = ep.res(v)
 	}
 	if d > 12 {
 		return "..."
@@ -189,6 +193,126 @@ func hasEffect(c *ssa.Call) bool {
 		return false
 	}
 	return true
+}
+
+// pathSummaries: the observable behaviour of f per direction, path by path: the conditions tested (other than
+// the direction test), stores, effectful calls, sends and the values returned, with values resolved along the path.
+func pathSummaries(f *ssa.Function) (dir0, dir1 []string, ok bool) {
+	paths, okP := enumIterPathsU(f, 20000)
+	if !okP {
+		return nil, nil, false
+	}
+	isDirTest := func(ft fact) (bool, bool) { // (is a direction test, direction is 0)
+		cm, ok := normCmp(ft.Cond, ft.Val)
+		if !ok || (cm.Op != token.EQL && cm.Op != token.NEQ) {
+			return false, false
+		}
+		prm, isP := origin(cm.X).(*ssa.Parameter)
+		k, isC := constInt(cm.Y)
+		if !isP || !isC || k != 0 || prm.Parent() != f {
+			return false, false
+		}
+		if b, ok := prm.Type().Underlying().(*types.Basic); !ok || b.Info()&types.IsInteger == 0 {
+			return false, false
+		}
+		return true, cm.Op == token.EQL
+	}
+	for pi := range paths {
+		pt := &paths[pi]
+		dir := -1
+		for _, ft := range pt.Conds {
+			if is, zero := isDirTest(ft); is {
+				if zero {
+					dir = 0
+				} else {
+					dir = 1
+				}
+			}
+		}
+		if dir < 0 {
+			continue
+		}
+		rename := func(s string) string { return s }
+		if dir == 1 {
+			rename = swapDir
+		}
+		ep := &exprPrinter{rename: rename, region: map[*ssa.BasicBlock]int{}, res: pt.value}
+		var out []string
+		ci := 0
+		for _, in := range pt.Instrs {
+			switch x := in.(type) {
+			case *ssa.If:
+				var ft fact
+				if ci < len(pt.Conds) {
+					ft = pt.Conds[ci]
+				}
+				ci++
+				if ft.If != x {
+					continue
+				}
+				if is, _ := isDirTest(ft); is {
+					continue
+				}
+				out = append(out, fmt.Sprintf("cond %s = %v", ep.str(ft.Cond, 0), ft.Val))
+			case *ssa.Store:
+				if _, isAlloc := x.Addr.(*ssa.Alloc); isAlloc {
+					continue // local variable
+				}
+				out = append(out, "store "+ep.str(x.Addr, 0)+" = "+ep.str(x.Val, 0))
+			case *ssa.MapUpdate:
+				out = append(out, "mapupdate "+ep.str(x.Map, 0)+"["+ep.str(x.Key, 0)+"]="+ep.str(x.Value, 0))
+			case *ssa.Call:
+				if helperCallee(x) != nil {
+					continue // inlined
+				}
+				if _, isB := x.Call.Value.(*ssa.Builtin); isB && (x.Call.Value.Name() == "len" || x.Call.Value.Name() == "cap") {
+					continue
+				}
+				if refs := x.Referrers(); refs != nil && len(*refs) > 0 && !hasEffect(x) {
+					continue
+				}
+				out = append(out, "call "+ep.str(x, 0))
+			case *ssa.Send:
+				out = append(out, "send "+ep.str(x.Chan, 0)+" "+ep.str(x.X, 0))
+			case *ssa.Select:
+				out = append(out, ep.str(x, 0))
+			case *ssa.Go, *ssa.Defer:
+				out = append(out, in.String())
+			case *ssa.Return:
+				if x.Parent() != f {
+					continue
+				}
+				var rs []string
+				for k := range x.Results {
+					for _, rv := range retValAt(x, k) {
+						rs = append(rs, ep.str(rv, 0))
+					}
+				}
+				out = append(out, "return "+strings.Join(rs, ","))
+			}
+		}
+		if pt.Loop {
+			out = append(out, "loop")
+		}
+		sum := strings.Join(out, " ; ")
+		if dir == 0 {
+			dir0 = append(dir0, sum)
+		} else {
+			dir1 = append(dir1, sum)
+		}
+	}
+	sort.Strings(dir0)
+	sort.Strings(dir1)
+	uniq := func(xs []string) []string {
+		var o []string
+		for i, x := range xs {
+			if i == 0 || x != xs[i-1] {
+				o = append(o, x)
+			}
+		}
+		return o
+	}
+	return uniq(dir0), uniq(dir1), true
 }
 
 // dirBranches finds, in f, the branch on "fromID == 0" (parameter compared with constant 0).
@@ -437,7 +561,27 @@ func runC18(c *Ctx) {
 		}
 		z, ot := dirBranches(f)
 		if z == nil {
-			o.Undecide("no branch on the direction id in Bridge.%s", fn)
+			// no two-armed branch on the direction (one direction computed as the default, or the direction folded
+			// into helper arguments): compare the behaviour of the paths of each direction instead
+			d0, d1, okS := pathSummaries(f)
+			if !okS || len(d0) == 0 || len(d1) == 0 {
+				o.Undecide("no branch on the direction id in Bridge.%s", fn)
+				continue
+			}
+			o.Site(f.Pos(), "direction 0: %d distinct path behaviours, direction 1: %d", len(d0), len(d1))
+			for i := 0; i < len(d0) || i < len(d1); i++ {
+				var la, lb string
+				if i < len(d0) {
+					la = d0[i]
+				}
+				if i < len(d1) {
+					lb = d1[i]
+				}
+				if la != lb {
+					o.Fail(f.Pos(), "Bridge.%s treats the two directions differently; a path of one direction has no counterpart in the other (direction 0 vs direction 1 renamed): [%s] vs [%s]", fn, la, lb)
+					break
+				}
+			}
 			continue
 		}
 		a := serializeRegion(z, func(s string) string { return s })
